@@ -245,3 +245,23 @@ PROPS['C20'] = dict(
     engine_text='rapidcheck over choice tapes + bounded exhaustive enumeration; simnet hosting the real iodined with -b; unit shape for fw_query.c',
     bounds='<= 20 requesters, <= 80 actions', trusted_base=TB_SIM, assumptions=AS_SIM,
 )
+
+PROPS['C04'] = dict(
+    bin='c04', sources=['props/c04.cc'] + SIMSRC2, unit_objs=UNIT, images=IMGS, engine='rc',
+    quick=dict(workers=8, cases=3000, budget=40, min_nontrivial=50),
+    thorough=dict(workers=16, cases=80000, budget=1200, min_nontrivial=3000),
+    rule='case = real iodined (tunnel subnet /8../30 with the server at a generated host position, source checking on (5/6) or off, query type) + '
+         '1..8 honest scripted sessions from distinct IPv4/IPv6 addresses (refproto) + 1..3 third parties + a plan of <= 90 actions generated '
+         'before execution: honest ping / one-fragment data packet (to the server or another session) / option request; SPOOF = L I S O N R P '
+         'data, raw login (wrong response), raw data, raw ping naming a victim session userid but sent from another session\'s or a third party\'s '
+         'address; packet on the server tun for a live session, a slot nobody is logged in on, the server, network, broadcast, an outside address; '
+         'time steps 5 ms .. 70 s; new version requests from third parties. Oracles: (1) the plan is executed twice from reset, with and without the '
+         'spoofed datagrams: decoded answers and raw frames received by every session and the server tun writes must be identical, and each '
+         'spoofed DNS request must be answered BADIP (raw frames not at all); (2) bytes of a tun packet for address A appear only in datagrams sent '
+         'to the address of the session that was assigned A and was active <= 58 s ago, never if it was silent >= 62 s / not logged in / '
+         'unassigned; (3) a VACK never names a slot active <= 58 s ago, VFUL only when no slot is unused or silent >= 62 s, a session silent '
+         '>= 62 s is refused. non-trivial iff >= 2 sessions, >= 1 spoof, tun packets for a live and for a dead address, >= 1 expiry crossing',
+    engine_text='rapidcheck over choice tapes; simnet hosting the real iodined; honest and adversarial scripted peers (refproto); differential execution',
+    bounds='<= 8 sessions, <= 3 third parties, <= 90 actions, <= 600 virtual s', trusted_base=TB_SIM,
+    assumptions=AS_SIM + ['liveness band: 58..62 s of silence is exercised but not judged', 'a spoofer has a different IP address than its victim (the server compares addresses, not ports)'],
+)
